@@ -16,8 +16,8 @@ ID = 'C21'
 CRATES = ['jj-lib']
 NATIVE = 'c21'
 BOUNDS = {
-    'quick': 'key size 1, values of 1 byte, all bytes symbolic; sequential saves with entry counts (1,1) (2,1) (1,2) (1,1,1) (3,1); two divergent writers from a stale head with (base,A,B) = (1,1,1) (2,1,1) merged with merge_in and saved; lookups of an arbitrary key before and after each save',
-    'thorough': 'adds (2,2) (2,1,1) (1,2,1) (2,2,1) sequential, (1,2,1) (1,1,2) (2,2,1) divergent, key size 2',
+    'quick': 'key size 1, values of 1 byte, all bytes symbolic; sequential saves with entry counts (1,1) (2,1) (1,2) (1,1,1) (3,1), and (3,1,1) with the three keys of the first save in ascending order (the smallest history in which a save squashes two ancestor segments); two divergent writers from a stale head with (base,A,B) = (1,1,1) (2,1,1) merged with merge_in and saved; lookups of an arbitrary key before and after each save',
+    'thorough': 'adds (3,1,1) unrestricted, (2,2) (2,1,1) (1,2,1) (2,2,1) sequential, (1,2,1) (1,1,2) (2,2,1) divergent, key size 2',
 }
 ASSUMPTIONS = [
     'segment names are unique per saved segment (content addressing by BLAKE2b is outside); a segment read back is the buffer that was written (file system outside)',
@@ -32,6 +32,9 @@ def jobs(tier):
     seq = [(1, 1), (2, 1), (1, 2), (1, 1, 1), (3, 1)] + ([(2, 2), (2, 1, 1), (1, 2, 1), (2, 2, 1)] if tier == 'thorough' else [])
     div = [(1, 1, 1), (2, 1, 1)] + ([(1, 2, 1), (1, 1, 2), (2, 2, 1)] if tier == 'thorough' else [])
     for sh in seq: out.append(dict(name='seq-' + '_'.join(map(str, sh)), what='seq', shape=list(sh), ks=1, rung=0 if sum(sh) <= 3 else 1, weight=4 ** sum(sh), split=('enumerate', 8) if sum(sh) >= 3 else None))
+    # three stacked segments squashed by the third save (2*1 < 3 keeps the second save stacked): in the quick tier with the keys of the
+    # first save in ascending order (BTreeMap insertion order is immaterial), in the thorough tier without that restriction
+    out.append(dict(name='seq-3_1_1' + ('-ordered' if tier == 'quick' else ''), what='seq', shape=[3, 1, 1], ks=1, rung=1, weight=4 ** 5, split=('enumerate', 8), ordered_first=(tier == 'quick')))
     for sh in div: out.append(dict(name='div-' + '_'.join(map(str, sh)), what='div', shape=list(sh), ks=1, rung=0 if sum(sh) <= 3 else 1, weight=4 ** sum(sh), split=('enumerate', 8)))
     if tier == 'thorough':
         out.append(dict(name='seq-ks2-1_1', what='seq', shape=[1, 1], ks=2, rung=2, weight=300, split=('enumerate', 8)))
@@ -120,7 +123,11 @@ def run_job(ix, job, tier):
         inp = dict(what=job['what'], ks=ks, plan=[[[[mval(m, b) for b in kk], [mval(m, b) for b in vv]] for kk, vv in ents] for ents in plan], q=[mval(m, b) for b in q])
         exp = None if k != 'ok' else [[o[0], (None if o[3] is None else [mval(m, b) for b in o[3]])] for o in obs]
         return dict(input=inp, expect=exp)
-    return explore_job(ix, job['name'], run, obligations, overrides=over, witness=witness, deadline=job.get('deadline'), split=job.get('split'))
+    pre = None
+    if job.get('ordered_first'):
+        first = [k for tag, k, v in entries if tag == 's0']
+        pre = zand([z3.ULT(a[0], b[0]) for a, b in zip(first, first[1:])])
+    return explore_job(ix, job['name'], run, obligations, overrides=over, witness=witness, deadline=job.get('deadline'), split=job.get('split'), pre=pre)
 
 def compare_native(case, native):
     if case.get('expect') is None: return ('panic' in native), 'interpreter path panicked but native run did not'
